@@ -3,28 +3,51 @@
 (*   true  OP_TRUE                        cltv  OP_1 OP_CHECKLOCKTIMEVERIFY OP_DROP OP_TRUE     csv   the same with OP_CHECKSEQUENCEVERIFY *)
 (*   nopx  OP_NOP4 OP_TRUE                fail  OP_1 OP_VERIFY OP_0                             p2pk  <K1> OP_CHECKSIG              *)
 (*   wsheq P2WSH(OP_1 OP_EQUAL)           wpkh  P2WPKH(K1)                                      ms    P2WSH(2 <K1> <K2> 2 OP_CHECKMULTISIG) *)
+(*   wshck P2WSH(OP_CHECKSIG)             shck  P2SH(OP_CHECKSIG)    -- the spender pushes the public key, in an encoding of its choice      *)
+(*   msenc 2 <K1 as "ux"> <K1 as "u"> 2 OP_CHECKMULTISIG (bare): one key twice, once in an encoding that does not parse                      *)
 EXTENDS Integers, Sequences
-CoinsDef == << "true", "cltv", "nopx", "wsheq", "wpkh", "wpkh", "ms", "fail", "p2pk", "csv", "true" >>
-Plain(tid, op) == [tid |-> tid, ins |-> <<op>>, wok |-> TRUE, sigs |-> <<>>]
-Sg(sp, sd, p) == [sp |-> sp, sd |-> sd, p |-> p]
+CoinsDef == << "true", "cltv", "nopx", "wsheq", "wpkh", "wpkh", "ms", "fail", "p2pk", "csv", "true", "wshck", "shck", "msenc" >>
+Plain(tid, op) == [tid |-> tid, dg |-> tid, sv |-> "base", ins |-> <<op>>, wok |-> TRUE, sigs |-> <<>>]
+\* a signature by sp over digest sd (hash type ALL, low S) checked against key p in compressed encoding with hash type ALL ...
+Sg(sp, sd, p) == [sp |-> sp, sd |-> sd, sht |-> "all", senc |-> "low", p |-> p, enc |-> "c", ht |-> "all"]
+\* ... the same with the key in encoding e; with another hash type byte; with a high S
+SgE(sp, sd, p, e) == [Sg(sp, sd, p) EXCEPT !.enc = e]
+SgHt(sp, sd, p, h) == [Sg(sp, sd, p) EXCEPT !.ht = h]
+SgHi(sp, sd, p) == [Sg(sp, sd, p) EXCEPT !.senc = "high"]
+\* spends of the P2WSH(OP_CHECKSIG) coin (witness twins: one txid 16) and of the P2SH(OP_CHECKSIG) coin (scriptSig twins: one digest 23)
+Wck(g) == [tid |-> 16, dg |-> 16, sv |-> "wit", ins |-> << <<0, 12>> >>, wok |-> TRUE, sigs |-> <<g>>]
+Sck(tid, g) == [tid |-> tid, dg |-> 23, sv |-> "base", ins |-> << <<0, 13>> >>, wok |-> TRUE, sigs |-> <<g>>]
 TxUDef == <<
   Plain(1, <<0, 1>>),                                                                  \*  1 T : spends the OP_TRUE coin
   Plain(2, <<0, 2>>),                                                                  \*  2 L : violates CLTV (valid before activation only)
   Plain(3, <<0, 3>>),                                                                  \*  3 N : consensus valid, STANDARD invalid
   Plain(4, <<0, 4>>),                                                                  \*  4 W : P2WSH spend, satisfying witness
-  [tid |-> 4, ins |-> << <<0, 4>> >>, wok |-> FALSE, sigs |-> <<>>],                   \*  5 W': same txid, witness does not satisfy the script
-  [tid |-> 6, ins |-> << <<0, 5>> >>, wok |-> TRUE, sigs |-> <<Sg("K1", 6, "K1")>>],   \*  6 X : P2WPKH spend
-  [tid |-> 7, ins |-> << <<0, 6>> >>, wok |-> TRUE, sigs |-> <<Sg("K1", 7, "K1")>>],   \*  7 Y : P2WPKH spend
-  [tid |-> 7, ins |-> << <<0, 6>> >>, wok |-> TRUE, sigs |-> <<Sg("K1", 6, "K1")>>],   \*  8 Y': same txid as Y, carries X's signature (valid for another digest)
-  [tid |-> 9, ins |-> << <<0, 7>> >>, wok |-> TRUE, sigs |-> <<Sg("K2", 9, "K2"), Sg("K1", 9, "K1")>>],   \*  9 M : 2-of-2, signatures of K1 and K2
-  [tid |-> 9, ins |-> << <<0, 7>> >>, wok |-> TRUE, sigs |-> <<Sg("K1", 9, "K2"), Sg("K1", 9, "K1")>>],   \* 10 M': same txid, K1's signature twice
+  [tid |-> 4, dg |-> 4, sv |-> "base", ins |-> << <<0, 4>> >>, wok |-> FALSE, sigs |-> <<>>],                   \*  5 W': same txid, witness does not satisfy the script
+  [tid |-> 6, dg |-> 6, sv |-> "wit", ins |-> << <<0, 5>> >>, wok |-> TRUE, sigs |-> <<Sg("K1", 6, "K1")>>],   \*  6 X : P2WPKH spend
+  [tid |-> 7, dg |-> 7, sv |-> "wit", ins |-> << <<0, 6>> >>, wok |-> TRUE, sigs |-> <<Sg("K1", 7, "K1")>>],   \*  7 Y : P2WPKH spend
+  [tid |-> 7, dg |-> 7, sv |-> "wit", ins |-> << <<0, 6>> >>, wok |-> TRUE, sigs |-> <<Sg("K1", 6, "K1")>>],   \*  8 Y': same txid as Y, carries X's signature (valid for another digest)
+  [tid |-> 9, dg |-> 9, sv |-> "wit", ins |-> << <<0, 7>> >>, wok |-> TRUE, sigs |-> <<Sg("K2", 9, "K2"), Sg("K1", 9, "K1")>>],   \*  9 M : 2-of-2, signatures of K1 and K2
+  [tid |-> 9, dg |-> 9, sv |-> "wit", ins |-> << <<0, 7>> >>, wok |-> TRUE, sigs |-> <<Sg("K1", 9, "K2"), Sg("K1", 9, "K1")>>],   \* 10 M': same txid, K1's signature twice
   Plain(11, <<0, 8>>),                                                                 \* 11 Z : always-failing script
-  [tid |-> 12, ins |-> << <<0, 9>> >>, wok |-> TRUE, sigs |-> <<Sg("K1", 12, "K1")>>], \* 12 P : legacy P2PK spend
+  [tid |-> 12, dg |-> 12, sv |-> "base", ins |-> << <<0, 9>> >>, wok |-> TRUE, sigs |-> <<Sg("K1", 12, "K1")>>], \* 12 P : legacy P2PK spend
   Plain(13, <<1, 1>>),                                                                 \* 13 C : child of T
   Plain(14, <<0, 10>>),                                                                \* 14 V : violates CSV (valid before activation only)
-  Plain(15, <<4, 1>>)                                                                  \* 15 CW: child of W / W'
+  Plain(15, <<4, 1>>),                                                                 \* 15 CW: child of W / W'
+  Wck(SgE("K1", 16, "K1", "c")),                                                       \* 16 EC : P2WSH CHECKSIG, compressed key (the honest, standard spend)
+  Wck(SgE("K1", 16, "K1", "u")),                                                       \* 17 EU : same txid, uncompressed key (consensus valid, not standard in a witness)
+  Wck(SgE("K1", 16, "K1", "ux")),                                                      \* 18 EUX: same txid, 04|X|Y' off the curve
+  Wck(SgE("K1", 16, "K1", "hx")),                                                      \* 19 EHX: same txid, hybrid key with the wrong parity header
+  Wck(SgE("K1", 16, "K1", "h")),                                                       \* 20 EH : same txid, hybrid key (consensus valid)
+  Wck(SgHt("K1", 16, "K1", "none")),                                                   \* 21 EHT: same txid, same signature pushed with hash type NONE
+  Wck(SgHi("K1", 16, "K1")),                                                           \* 22 ES : same txid, the signature with S negated (consensus valid, not standard)
+  Sck(23, SgE("K1", 23, "K1", "u")),                                                   \* 23 SU : P2SH CHECKSIG, uncompressed key (honest, standard)
+  Sck(24, SgE("K1", 23, "K1", "ux")),                                                  \* 24 SUX: same digest, other txid: 04|X|Y' off the curve (passes STRICTENC)
+  Sck(25, SgE("K1", 23, "K1", "c")),                                                   \* 25 SC : same digest, compressed key (valid)
+  Sck(26, SgE("K1", 23, "K1", "hx")),                                                  \* 26 SHX: same digest, hybrid with the wrong parity header
+  [tid |-> 27, dg |-> 27, sv |-> "base", ins |-> << <<0, 14>> >>, wok |-> TRUE,
+   sigs |-> <<SgE("K1", 27, "K1", "u"), SgE("K1", 27, "K1", "ux")>>]                   \* 27 BM : bare 2-of-2 over K1(u), K1(ux) with K1's signature twice
 >>
-AllTx == 1..15
+AllTx == 1..27
 AllActs == {"submit", "test", "mine", "testblock", "invalidate"}
 NoTest == {"submit", "mine", "testblock", "invalidate"}
 \* scenario families: the transactions submitted on their own, and the block contents
@@ -36,10 +59,18 @@ ActWit == {4, 5, 15}
 ListsWit == { <<>>, <<4>>, <<5>>, <<4, 15>>, <<15>> }
 ActSig == {6, 8, 9, 10}
 ListsSig == { <<6>>, <<8>>, <<9>>, <<10>> }
+ActEncW == {16, 17, 18, 19}
+ListsEncW == { <<16>>, <<17>>, <<18>>, <<19>> }
+ActEncS == {23, 24, 25, 27}
+ListsEncS == { <<23>>, <<24>>, <<25>>, <<27>> }
+ActEncWT == {16, 18, 20, 21, 22}
+ListsEncWT == { <<16>>, <<18>>, <<20>>, <<21>>, <<22>> }
+ActEncST == {23, 24, 25, 26}
+ListsEncST == { <<23>>, <<24>>, <<25>>, <<26>>, <<23, 24>> }
 ActMix == {1, 6, 8, 13}
 ListsMix == { <<>>, <<1>>, <<6>>, <<8>>, <<1, 13>>, <<13>>, <<6, 8>> }
 \* simulation: everything
-ListsAll == { <<>> } \cup { <<t>> : t \in AllTx \ {11, 13, 15} } \cup { <<1, 13>>, <<4, 15>>, <<5, 15>>, <<2, 14>>, <<6, 8>>, <<9, 6>> }
+ListsAll == { <<>> } \cup { <<t>> : t \in AllTx \ {11, 13, 15} } \cup { <<1, 13>>, <<4, 15>>, <<5, 15>>, <<2, 14>>, <<6, 8>>, <<9, 6>>, <<23, 25>> }
 FH1 == [CLTV |-> 106]
 FH2 == [CLTV |-> 106, CSV |-> 107]
 ====
